@@ -52,6 +52,7 @@ func checkC09(ctx *Ctx, r *Report) {
 	c09UnfoldAccumulators(ctx, r)
 	c09ConstraintsThroughReferences(ctx, r)
 	c09FourthRound(ctx, r)
+	c08CollapsedUnionKeepsConstraints(ctx, r)
 }
 
 // (1a) order of derivation, veneers, nil checks
